@@ -38,6 +38,7 @@ def countOf : Val → Option Int
   | .str s => parseInt s
   | .none => none
   | .elem _ => none
+  | .method _ _ => none
 
 /-- "If the value n equals 1, the singular form will be used.  Otherwise the plural." -/
 def useSingular (n : Option Val) : Bool :=
